@@ -130,6 +130,13 @@ nests = [
  (['function', '(', ')'], []), (['[', '1', ']', '['], [']']), (['x', '.'], []), (['for', 'i', 'in', '['], [']', 'return', 'i']), (['string', '('], [')']), (['abs', '('], [')']),
  (['1', '<'], []), (['a', 'and'], []), (['some', 'i', 'in', '['], [']', 'satisfies', 'i']), (['[', '1', '..'], [']']), (['"', ], ['"']), (['/*'], ['*/']), (['a', 'instance of', 'list', '<'], ['>']),
 ]
+# nesting in the LEFT operand and in suffix position (a construct that compiles or evaluates an operand twice doubles the
+# work with every level)
+nests += [
+ (['('], ['between', '0', 'and', '2', ')']), (['('], ['in', '[', '0', '..', '2', ']', ')']), (['('], ['=', '1', ')']), (['('], ['instance of', 'boolean', ')']),
+ (['if'], ['then', '1', 'else', '0']), (['1', 'between', '0', 'and'], []), (['('], [')', '[', '1', ']']), (['{', 'a', ':'], ['}', '.', 'a']),
+ (['('], ['+', '1', ')']), (['('], ['and', 'true', ')']), (['1', 'in', '('], [',', '2', ')']),
+]
 def seq(toks):
     return '<<' + ', '.join(tla_str(t) for t in toks) + '>>'
 out = []
